@@ -67,12 +67,20 @@ class Part(object):
         if len(self.samples) < 3:
             self.samples.append(case)
 
-    def violation(self, sig, case, expected, observed, note=""):
+    def violation(self, sig, case, expected, observed, note="", rank=0):
+        """rank: size of the case (smaller = simpler); the reported case of a signature is the one with the
+        smallest (rank, unit, sequence number)"""
         self.viol_sigs[sig] += 1
         self._seq += 1
-        if self.viol_sigs[sig] <= MAX_STORED_PER_SIG:
-            self.viol.append({"sig": sig, "case": case, "expected": _short(expected),
-                              "observed": _short(observed), "note": note, "seq": self._seq})
+        mine = [v for v in self.viol if v["sig"] == sig]
+        v = {"sig": sig, "case": case, "expected": _short(expected), "observed": _short(observed),
+             "note": note, "seq": self._seq, "rank": rank}
+        if len(mine) < MAX_STORED_PER_SIG:
+            self.viol.append(v)
+        else:
+            worst = max(mine, key=lambda x: (x["rank"], x["seq"]))
+            if (rank, self._seq) < (worst["rank"], worst["seq"]):
+                self.viol[self.viol.index(worst)] = v
 
     def merge(self, other, unit_index):
         self.states += other.states
@@ -86,7 +94,7 @@ class Part(object):
         self.viol_sigs.update(other.viol_sigs)
         for v in other.viol:
             v = dict(v)
-            v["order"] = (unit_index, v.pop("seq"))
+            v["order"] = (v.get("rank", 0), unit_index, v.pop("seq"))
             self.viol.append(v)
         if other.samples:
             self.samples.append((unit_index, other.samples))
